@@ -84,7 +84,7 @@ TestHolds(tree, cfg, e, t) ==
          LET r == t.ref
              rn == IF tree[r].kind = "l" /\ cfg.mode # "P" /\ tree[r].target # 0 THEN tree[r].target ELSE r
          IN Ident(tree, e.eff) = Ident(tree, rn)
-    [] t.p = "lname" -> nd.kind = "l" /\ e.eff = e.node /\ GlobMatch(t.pat, nd.text, FALSE)
+    [] t.p = "lname" -> nd.kind = "l" /\ e.eff = e.node /\ GlobMatch(t.pat, Utf8Decode(nd.text), FALSE)
 
 \* nothing of the above is left open on the trees the harness can build (kept as a hook)
 TestDom(tree, cfg, e, t) == TRUE
